@@ -208,8 +208,7 @@ Proof.
   - rewrite q_values_nth by lia. cbn. ring.
   - rewrite q_values_nth by lia. unfold incr.
     replace (Z.of_nat (n - 1)) with (Z.of_nat n - 1)%Z by lia.
-    field. intro H. assert (inject_Z (Z.of_nat n - 1) == inject_Z 0) as H0 by (rewrite H; reflexivity).
-    apply inject_Z_injective in H0. lia.
+    field. intro H. unfold Qeq in H. cbn in H. lia.
 Qed.
 
 Theorem cycle_values_closed_form (s turn : Q) (n : nat) : (1 <= n)%nat ->
@@ -217,8 +216,7 @@ Theorem cycle_values_closed_form (s turn : Q) (n : nat) : (1 <= n)%nat ->
   forall k, (k < n)%nat -> nth k (q_values s incr n) 0 == s + inject_Z (Z.of_nat k) * turn / inject_Z (Z.of_nat n).
 Proof.
   intros Hn incr k Hk. rewrite q_values_nth by lia. unfold incr. field.
-  intro H. assert (inject_Z (Z.of_nat n) == inject_Z 0) as H0 by (rewrite H; reflexivity).
-  apply inject_Z_injective in H0. lia.
+  intro H. unfold Qeq in H. cbn in H. lia.
 Qed.
 Close Scope Q_scope.
 
@@ -226,14 +224,14 @@ Close Scope Q_scope.
 Definition str_lt (a b : string) : Prop := str_ltb a b = true.
 
 Lemma str_ltb_irrefl a : str_ltb a a = false.
-Proof. induction a as [|c a IH]; cbn; [reflexivity|]. rewrite Nat.ltb_irrefl. exact IH. Qed.
+Proof. induction a as [|c a IH]; cbn [str_ltb]; [reflexivity|]. rewrite Nat.ltb_irrefl. exact IH. Qed.
 
 Lemma str_ltb_trans a : forall b c, str_ltb a b = true -> str_ltb b c = true -> str_ltb a c = true.
 Proof.
   induction a as [|x a IH]; intros b c Hab Hbc.
   - destruct b as [|y b]; [discriminate|]. destruct c as [|z c]; [discriminate|]. reflexivity.
-  - destruct b as [|y b]; [discriminate|]. destruct c as [|z c]; [cbn in Hbc; discriminate|].
-    cbn in *.
+  - destruct b as [|y b]; [discriminate|]. destruct c as [|z c]; [cbn [str_ltb] in Hbc; discriminate|].
+    cbn [str_ltb] in *.
     destruct (Nat.ltb (Ascii.nat_of_ascii x) (Ascii.nat_of_ascii y)) eqn:E1.
     + apply Nat.ltb_lt in E1.
       destruct (Nat.ltb (Ascii.nat_of_ascii y) (Ascii.nat_of_ascii z)) eqn:E2.
@@ -255,7 +253,7 @@ Lemma str_ltb_total a : forall b, str_ltb a b = false -> str_ltb b a = false -> 
 Proof.
   induction a as [|x a IH]; intros b H1 H2.
   - destruct b; [reflexivity|discriminate].
-  - destruct b as [|y b]; [discriminate|]. cbn in *.
+  - destruct b as [|y b]; [discriminate|]. cbn [str_ltb] in *.
     destruct (Nat.ltb (Ascii.nat_of_ascii x) (Ascii.nat_of_ascii y)) eqn:E1; [discriminate|].
     destruct (Nat.ltb (Ascii.nat_of_ascii y) (Ascii.nat_of_ascii x)) eqn:E2; [discriminate|].
     apply Nat.ltb_ge in E1. apply Nat.ltb_ge in E2.
@@ -298,7 +296,8 @@ Qed.
 (* `repeat all as x` binds x to each known light exactly once, in name order; likewise
    group names, location names, and the members of a group or location *)
 Theorem light_names_each_once w :
-  StronglySorted str_lt (light_names w) /\ NoDup (light_names w) /  (forall n, In n (light_names w) <-> exists l, In l w /\ l_name l = n).
+  StronglySorted str_lt (light_names w) /\ NoDup (light_names w) /\
+  (forall n, In n (light_names w) <-> exists l, In l w /\ l_name l = n).
 Proof.
   unfold light_names. split; [apply sort_names_sorted|]. split; [apply sorted_NoDup, sort_names_sorted|].
   intros n. unfold sort_names. rewrite sort_names_In. cbn [In]. rewrite in_map_iff. split.
